@@ -69,7 +69,8 @@ def model (F : Facts) : List String → Option String
       | some ud =>
         let (fy, fm, fd, _, _, _) := fieldsOf (civil z ud)
         let us := goDate z (civilSeconds fy fm fd h mi s)
-        some (if us = u then res else res ++ " STATUS:" ++ showFields us (civil z us))
+        -- the listener combines the two the same way
+        some (if us = u then res else res ++ " STATUS:" ++ showFields us (civil z us) ++ " LISTEN:" ++ showFields us (civil z us))
     else some res
   | ["zzero", _, lmt] => do
     let lmt ← lmt.toInt?
